@@ -8,8 +8,11 @@
 (* property violation.  Stage invariants (a greedy pass never grows its list; spans partition    *)
 (* the cells; no two fragments left that could merge) are evaluated on the logged values too.    *)
 EXTENDS PipelineOps, Json, IOUtils
-VARIABLES l, bad, cs, merged, contacts, rejects, ninv
-vars == <<l, bad, cs, merged, contacts, rejects, ninv>>
+VARIABLES l, bad, cs, merged, contacts, rejects, ninv,
+          phase,      \* "endorse" (first pass over a span) or "regroup" (re-fragmentation of rejected spans)
+          freeAcc,    \* free fragments accumulated over the spans of the conversion (stage 12)
+          groupAcc    \* contact groups that will be rendered as <g>
+vars == <<l, bad, cs, merged, contacts, rejects, ninv, phase, freeAcc, groupAcc>>
 Rec == ndJsonDeserialize(IOEnv.TRACE)
 
 \* logged fragments arrive as records [k, s, e, b | r, sw | cell, t, cells]; bring them to the model's shape
@@ -27,6 +30,8 @@ Frag(f) ==
 NoCells(f) == IF f.k = "A" THEN [k |-> "A", s |-> f.s, e |-> f.e, r |-> f.r, sw |-> f.sw, mj |-> f.mj]
               ELSE IF f.k = "C" THEN [k |-> "C", c |-> f.c, r |-> f.r, f |-> f.f]
               ELSE IF f.k = "R" THEN [k |-> "R", s |-> f.s, e |-> f.e, r |-> f.r, b |-> f.b, f |-> f.f] ELSE f
+\* a fragment without the cells it came from (any kind)
+NoCells2(f) == [x \in (DOMAIN f) \ {"cells"} |-> f[x]]
 Frags(fs) == [i \in 1..Len(fs) |-> Frag(fs[i])]
 Groups(gs) == [i \in 1..Len(gs) |-> Frags(gs[i])]
 Span2(sp) == [i \in 1..Len(sp) |-> Pt(sp[i])]
@@ -36,21 +41,24 @@ Mark(ok, tag) == IF ok THEN bad ELSE bad \cup {<<l, tag>>}
 \* diagnostics: on a mismatch print what the model expected next to what was logged
 Diag(ok, tag, model, logged) == IF ok THEN TRUE ELSE PrintT(<<"MISMATCH", l, tag, "model", model, "logged", logged>>)
 
-Init == l = 1 /\ bad = {} /\ cs = <<>> /\ merged = <<>> /\ contacts = <<>> /\ rejects = <<>> /\ ninv = 0
+Init == /\ l = 1 /\ bad = {} /\ cs = <<>> /\ merged = <<>> /\ contacts = <<>> /\ rejects = <<>> /\ ninv = 0
+        /\ phase = "endorse" /\ freeAcc = <<>> /\ groupAcc = <<>>
 Step(ev) ==
   CASE ev.ev = "cells" ->
          LET logged == [i \in 1..Len(ev.cells) |-> <<ev.cells[i][1], ev.cells[i][2], ev.cells[i][3]>>] IN
          /\ bad' = Mark(logged = CellSeq(ev.rows), "cells")
          /\ cs' = logged /\ UNCHANGED <<merged, contacts, rejects>> /\ ninv' = ninv + 1
+         /\ phase' = "endorse" /\ freeAcc' = <<>> /\ groupAcc' = <<>>
     [] ev.ev = "spans" ->
          LET logged == [i \in 1..Len(ev.spans) |-> Span2(ev.spans[i])] IN
          /\ bad' = Mark(logged = SpansOf(cs), "spans")
                    \cup (IF \A i, j \in 1..Len(logged) : i # j => ~SpanCan(logged[i], logged[j]) THEN {} ELSE {<<l, "inv:span-fixpoint">>})
-         /\ UNCHANGED <<cs, merged, contacts, rejects>> /\ ninv' = ninv + 1
+         /\ UNCHANGED <<cs, merged, contacts, rejects, phase, freeAcc, groupAcc>> /\ ninv' = ninv + 1
     [] ev.ev = "circle" ->
          LET model == EndorseCat(cs, Span2(ev.span)) IN
          /\ bad' = Mark([i \in 1..Len(ev.accepted) |-> NoCells(Frag(ev.accepted[i]))] = model[1] /\ Span2(ev.rest) = model[2], "circle")
-         /\ UNCHANGED <<cs, merged, contacts, rejects, ninv>>
+         /\ phase' = "endorse" /\ freeAcc' = freeAcc \o [i \in 1..Len(ev.accepted) |-> NoCells(Frag(ev.accepted[i]))]
+         /\ UNCHANGED <<cs, merged, contacts, rejects, ninv, groupAcc>>
     [] ev.ev = "merged" ->
          LET logged == Frags(ev.frags) model == Merged(cs, Span2(ev.span)) IN
          \* compared as bags: the code sorts the fragments of a cell with a comparison that is not a total
@@ -59,25 +67,37 @@ Step(ev) ==
          /\ Diag(SameBagSeq(logged, model), "merged", model, logged)
          /\ bad' = Mark(SameBagSeq(logged, model), "merged")
                    \cup (IF \A i, j \in 1..Len(logged) : i # j => ~FragCan(logged[i], logged[j]) THEN {} ELSE {<<l, "inv:merge-fixpoint">>})
-         /\ merged' = logged /\ UNCHANGED <<cs, contacts, rejects>> /\ ninv' = ninv + 1
+         /\ merged' = logged /\ UNCHANGED <<cs, contacts, rejects, phase, freeAcc, groupAcc>> /\ ninv' = ninv + 1
     [] ev.ev = "contacts" ->
          LET logged == Groups(ev.groups) IN
          /\ bad' = Mark(logged = ContactsOf(merged), "contacts")
                    \cup (IF Len(logged) <= Len(merged) THEN {} ELSE {<<l, "inv:pass-grew">>})
-         /\ contacts' = logged /\ UNCHANGED <<cs, merged, rejects>> /\ ninv' = ninv + 1
+         /\ contacts' = logged /\ UNCHANGED <<cs, merged, rejects, phase>> /\ ninv' = ninv + 1
+         /\ IF phase = "regroup"
+            THEN /\ freeAcc' = freeAcc \o FoldLeft(LAMBDA lst, GG : IF Len(GG) = 1 THEN Append(lst, NoCells2(GG[1])) ELSE lst, <<>>, logged)
+                 /\ groupAcc' = groupAcc \o SelectSeq(logged, LAMBDA GG : Len(GG) > 1)
+            ELSE UNCHANGED <<freeAcc, groupAcc>>
     [] ev.ev = "rects" ->
          LET acc == [i \in 1..Len(ev.accepted) |-> NoCells(Frag(ev.accepted[i]))] rej == Groups(ev.rejects)
              mrects == SelectSeq(contacts, Endorsable) mrej == SelectSeq(contacts, LAMBDA GG : ~Endorsable(GG)) IN
          /\ bad' = Mark(acc = [i \in 1..Len(mrects) |-> RectOf(mrects[i])] /\ rej = mrej, "rects")
-         /\ rejects' = rej /\ UNCHANGED <<cs, merged, contacts, ninv>>
+         /\ rejects' = rej /\ UNCHANGED <<cs, merged, contacts, ninv, phase, groupAcc>>
+         /\ freeAcc' = freeAcc \o acc
     [] ev.ev = "reendorse" ->
          LET logged == [i \in 1..Len(ev.rejects) |-> Span2(ev.rejects[i])]
              model == MergeRec([i \in 1..Len(rejects) |-> GroupCells(rejects[i])], SpanCan, SpanMrg) IN
          /\ bad' = Mark(logged = [i \in 1..Len(model) |-> EndorseCat(cs, model[i])[2]]
                          /\ [i \in 1..Len(ev.accepted) |-> NoCells(Frag(ev.accepted[i]))] = FoldLeft(LAMBDA lst, sp : lst \o EndorseCat(cs, sp)[1], <<>>, model),
                          "reendorse")
-         /\ UNCHANGED <<cs, merged, contacts, rejects, ninv>>
-    [] OTHER -> bad' = bad /\ UNCHANGED <<cs, merged, contacts, rejects, ninv>>
+         /\ phase' = "regroup" /\ freeAcc' = freeAcc \o [i \in 1..Len(ev.accepted) |-> NoCells(Frag(ev.accepted[i]))]
+         /\ UNCHANGED <<cs, merged, contacts, rejects, ninv, groupAcc>>
+    [] ev.ev = "regroup" ->      \* stage 12: the free fragments and the groups of the whole conversion
+         LET free == [i \in 1..Len(ev.free) |-> NoCells2(Frag(ev.free[i]))]
+             groups == [i \in 1..Len(ev.groups) |-> [j \in 1..Len(ev.groups[i]) |-> NoCells2(Frag(ev.groups[i][j]))]]
+             mgroups == [i \in 1..Len(groupAcc) |-> [j \in 1..Len(groupAcc[i]) |-> NoCells2(groupAcc[i][j])]] IN
+         /\ bad' = Mark(SameBagSeq(free, [i \in 1..Len(freeAcc) |-> NoCells2(freeAcc[i])]) /\ groups = mgroups, "regroup")
+         /\ UNCHANGED <<cs, merged, contacts, rejects, phase, freeAcc, groupAcc>> /\ ninv' = ninv + 1
+    [] OTHER -> bad' = bad /\ UNCHANGED <<cs, merged, contacts, rejects, ninv, phase, freeAcc, groupAcc>>
 Next == l <= Len(Rec) /\ l' = l + 1 /\ Step(Rec[l])
 Report == l = Len(Rec) + 1 => /\ \A b \in bad : PrintT(<<"BAD", b[1], b[2]>>)
                               /\ PrintT(<<"BADCOUNT", Cardinality(bad)>>)
